@@ -18,6 +18,9 @@ import (
 
 func TestMain(m *testing.M) { h.Main(m) }
 
+var reusedPriv [64]byte
+var primerKey = stded.NewKeyFromSeed(bytes.Repeat([]byte{9}, 32))
+
 type signCase struct {
 	Seed h.B `json:"seed"`
 	Msg  h.B `json:"msg"`
@@ -75,8 +78,19 @@ func checkSign(c signCase) (h.Info, error) {
 	if !bytes.Equal(pub, std.Public().(stded.PublicKey)) || !bytes.Equal(priv.Seed(), seed) {
 		return info, fmt.Errorf("Public()/Seed() mismatch: %x / %x", pub, priv.Seed())
 	}
-	sig := ed25519.Sign(priv, msg)
 	want := stded.Sign(std, msg)
+	// a caller that keeps its private key in one buffer and overwrites it in place with the next key:
+	// first and last signing call of every case
+	copy(reusedPriv[:], primerKey) // self-contained sequence: a fixed other key first, then this case's key over it
+	if s0 := ed25519.Sign(ed25519.PrivateKey(reusedPriv[:]), msg); !bytes.Equal(s0, stded.Sign(primerKey, msg)) {
+		return info, fmt.Errorf("Sign with the fixed primer key differs from crypto/ed25519")
+	}
+	copy(reusedPriv[:], std)
+	if s5 := ed25519.Sign(ed25519.PrivateKey(reusedPriv[:]), msg); !bytes.Equal(s5, want) {
+		return info, fmt.Errorf("Sign(seed %x, msg %x) with a private-key buffer that was overwritten in place after holding the previous case's key = %x, crypto/ed25519 %x", seed, msg, s5, want)
+	}
+	defer ed25519.Sign(ed25519.PrivateKey(reusedPriv[:]), msg)
+	sig := ed25519.Sign(priv, msg)
 	if !bytes.Equal(sig, want) {
 		return info, fmt.Errorf("Sign(seed %x, msg %x) = %x, crypto/ed25519 %x", seed, msg, sig, want)
 	}
